@@ -209,7 +209,6 @@ impl EventRegister {
     /// Preset the registers to default values
     pub fn preset(&mut self) {
         self.enable = 0u16;
-        self.condition = 0u16;
         self.ptr_filter = 0xffffu16;
         self.ntr_filter = 0u16;
     }
